@@ -142,7 +142,7 @@ def inputsB (matchDel matchDmn delDone dmnLive dmnForever marked blocked cons me
   { spawning := true, spawnReq := matchDmn && !dmnForever, changing := matchDel || otherChanging,
     changeReq := matchDel, isBlocked := blocked, isOngoing := marked, deletedEvent := false,
     consistent := cons && memEmpty, spawnDelays := dmnLive && (marked || !matchDmn),
-    changeDelays := (matchDel && !(delDone && !delReset)) || otherDelays }
+    changeDelays := (marked && blocked && matchDel && !(delDone && !delReset)) || otherDelays }
 
 theorem inputs_eq (own : String) (v : Snap) (s : State) (e : Env) :
     inputs own v s e = inputsB v.matchDel v.matchDmn s.delDone s.dmnLive s.dmnForever v.marked
